@@ -18,4 +18,5 @@ CHECK = {'title': "Every PWM value written while regulating stays inside the fan
                'algorithms, for each listed configuration; the oracle is evaluated on every transition',
  'level_note': 'bounded by the listed configurations and alphabets; PID memory is real-valued so only depth-bounded; cmd fans are covered by C09/C19 '
                'harnesses, not here',
- 'runs': [{'pkg': 'internal/controller', 'test': 'TestVX_C01', 'shards_quick': 16, 'shards_thorough': 16}]}
+ 'runs': [{'pkg': 'internal/controller', 'test': 'TestVX_C01', 'shards_quick': 16, 'shards_thorough': 16},
+          {'pkg': 'internal/controller', 'test': 'TestVX_C01sweep', 'shards_quick': 8, 'shards_thorough': 16}]}
